@@ -2,7 +2,7 @@
 C09 — the layered key-value store is one ordered map on every backend. Property theorems only;
 the model is `Model/Store.lean`, the specification `Model/Store/Spec.lean`, lemmas `Proofs/Store*.lean`.
 -/
-import NeoModel.Proofs.StoreFlush
+import NeoModel.Proofs.StoreSeekSpec
 namespace NeoModel.Store.C09
 
 /-- C09 (point reads): `Get` on any stack over any backend returns what the ordered map holds. -/
@@ -77,5 +77,118 @@ example :
   refine .cons _ _ _ _ _ (.put _ _ _ _) ?_
   refine .cons _ _ _ _ _ (.flush _ _ (.finish _ _ _ ?_)) (.nil _)
   exact covered_after_write _ _ (by unfold Layer.WF MapWF Placed; decide)
+
+/-! ### range scans -/
+
+/-- C09 (range scans): `Seek` on ANY stack — any number of shared / private cache layers, tombstones,
+tempstores of flushes in progress — over ANY backend (MemoryStore, LevelDB, BoltDB), for every
+non-empty prefix, start, direction and SearchDepth, enumerates exactly the pairs of the ordered
+map (seen through `SearchDepth` layers) whose key is in range, strictly ordered in the direction
+of the scan: nothing omitted, nothing extra, no duplicates. -/
+theorem seek_spec (s : Store) (hw : s.WF) (rng : SeekRange) (hp : rng.pfx ≠ []) :
+    IsSpecSeek (s.flattenD rng.depth) rng (s.seek rng) := seek_spec_all s hw rng hp
+
+/-- … and that answer is unique, so `seek_spec` determines the list. -/
+theorem seek_unique (f : SpecMap) (rng : SeekRange) (a b : List KV)
+    (ha : IsSpecSeek f rng a) (hb : IsSpecSeek f rng b) : a = b := isSpecSeek_unique f rng a b ha hb
+
+-- non-vacuity: three layers over LevelDB; a tombstone hides a disk key, a cached key that extends
+-- prefix‖start is part of the backward scan, the start key itself is included
+example :
+    let s := Store.cached { priv := true, mem := [], stor := [([0x70, 0, 0x70, 0xff], some [5])] }
+      (.cached { priv := false, mem := [], stor := [([0x70, 0, 0x70, 0x71], none)] }
+        (.level [([0x70, 0], [1]), ([0x70, 0, 0x70], [2]), ([0x70, 0, 0x70, 0x71], [3]), ([0x70, 0, 0x71], [4])]))
+    let rng : SeekRange := { pfx := [0x70], start := [0, 0x70], bw := true, depth := 0 }
+    ([0x70, 0, 0x70, 0xff], [5]) ∈ s.seek rng ∧ ([0x70, 0, 0x70], [2]) ∈ s.seek rng ∧
+      ([0x70, 0, 0x70, 0x71], [3]) ∉ s.seek rng ∧ ([0x70, 0, 0x71], [4]) ∉ s.seek rng := by
+  intro s rng
+  have hw : s.WF := by
+    refine ⟨?_, ?_, ?_⟩
+    · unfold Layer.WF MapWF Placed; decide
+    · unfold Layer.WF MapWF Placed; decide
+    · show DbWF _; unfold DbWF; decide
+  have h := (seek_spec s hw rng (by decide)).2
+  refine ⟨(h _ _).mpr ⟨by decide, by unfold inRange; decide⟩, (h _ _).mpr ⟨by decide, by unfold inRange; decide⟩, ?_, ?_⟩
+  · intro hin; have := ((h _ _).mp hin).1; revert this; decide
+  · intro hin; have := ((h _ _).mp hin).2; revert this; unfold inRange; decide
+
+/-- C09 (prefix trimming, early stop): what the caller of `Seek` / `SeekAsync(cutPrefix)` gets when
+its callback stops at the `lim`-th item is the specified list with the prefix cut, stopped there
+(cutting happens in the top store only, backends never cut). -/
+theorem seek_observed (L : Layer) (ps : Store) (rng : SeekRange) (cut : Bool) (lim : Nat) :
+    (Store.cached L ps).seekObs rng cut lim = specObs ((Store.cached L ps).seek rng) rng.pfx.length cut lim :=
+  seekObs_eq (Store.cached L ps) rng cut lim
+
+/-- cutting the prefix keeps the keys distinct: they all carry it. -/
+theorem cut_injective (f : SpecMap) (rng : SeekRange) (r : List KV) (h : IsSpecSeek f rng r) :
+    ∀ a ∈ r, ∀ b ∈ r, a.1.drop rng.pfx.length = b.1.drop rng.pfx.length → a.1 = b.1 := by
+  intro a ha b hb e
+  obtain ⟨ta, hta⟩ := ((h.2 a.1 a.2).mp ha).2.1
+  obtain ⟨tb, htb⟩ := ((h.2 b.1 b.2).mp hb).2.1
+  rw [← hta, ← htb] at e ⊢
+  simp only [List.drop_left] at e
+  rw [e]
+
+/-- C09 (every backend): two stacks — in particular two bare backends of different kinds — that
+stand for the same ordered map answer every range scan with the same list. -/
+theorem backends_agree (s1 s2 : Store) (h1 : s1.WF) (h2 : s2.WF) (rng : SeekRange) (hp : rng.pfx ≠ [])
+    (hsame : s1.flattenD rng.depth = s2.flattenD rng.depth) : s1.seek rng = s2.seek rng := by
+  have a := seek_spec s1 h1 rng hp
+  have b := seek_spec s2 h2 rng hp
+  rw [hsame] at a
+  exact seek_unique _ rng _ _ a b
+
+-- non-vacuity: the same four keys in a MemoryStore, a LevelDB and a BoltDB (inserted in different orders)
+example (rng : SeekRange) (hp : rng.pfx ≠ []) :
+    (Store.memB [] [([0x70, 2], some [2]), ([0x70, 1], some [1]), ([0x70, 1, 0], some [3]), ([0x70], none)]).seek rng
+      = (Store.bolt [([0x70, 1, 0], [3]), ([0x70, 1], [1]), ([0x70, 2], [2])]).seek rng := by
+  apply backends_agree _ _ (by constructor <;> (unfold MapWF; decide)) (by show DbWF _; unfold DbWF; decide) rng hp
+  rw [flattenD_backend_memB, flattenD_backend_bolt]
+  funext k
+  simp only [Store.flatten, overlay, layerSays, Layer.choose, mapGet, SpecMap.empty]
+  by_cases hs : isStor k = true
+  · simp only [hs, if_true, List.lookup]
+    by_cases h1 : k = [0x70, 2]
+    · subst h1; rfl
+    · by_cases h2 : k = [0x70, 1]
+      · subst h2; rfl
+      · by_cases h3 : k = [0x70, 1, 0]
+        · subst h3; rfl
+        · by_cases h4 : k = [0x70]
+          · subst h4; rfl
+          · have e1 : (k == [0x70, 2]) = false := by simpa using h1
+            have e2 : (k == [0x70, 1]) = false := by simpa using h2
+            have e3 : (k == [0x70, 1, 0]) = false := by simpa using h3
+            have e4 : (k == [0x70]) = false := by simpa using h4
+            simp [e1, e2, e3, e4]
+  · have hs' : isStor k = false := by simpa using hs
+    have e1 : (k == [0x70, 2]) = false := by
+      cases hk : k == [0x70, 2] with
+      | false => rfl
+      | true => rw [eq_of_beq hk] at hs'; cases hs'
+    have e2 : (k == [0x70, 1]) = false := by
+      cases hk : k == [0x70, 1] with
+      | false => rfl
+      | true => rw [eq_of_beq hk] at hs'; cases hs'
+    have e3 : (k == [0x70, 1, 0]) = false := by
+      cases hk : k == [0x70, 1, 0] with
+      | false => rfl
+      | true => rw [eq_of_beq hk] at hs'; cases hs'
+    simp [hs', List.lookup, e1, e2, e3]
+
+/-- C09 (flushing changes no scan): a flush step of any store of the stack changes no full-depth
+range scan of any enclosing view. -/
+theorem flush_seek_invisible {s s' : Store} (st : FlushStep s s') (h : s.WF) (rng : SeekRange)
+    (hp : rng.pfx ≠ []) (hd : rng.depth = 0) : s'.seek rng = s.seek rng := by
+  apply backends_agree s' s (flushStep_WF st h) h rng hp
+  rw [hd]; exact flushStep_flatten st h
+
+/-- C09 (scans during any schedule): at any moment of any interleaving of writes with flush steps a
+full-depth range scan is the answer of the ordered map that received the same writes. -/
+theorem seek_during_flush {s s' : Store} {es : List Ev} (r : Run s es s') (h : s.WF) (rng : SeekRange)
+    (hp : rng.pfx ≠ []) (hd : rng.depth = 0) : IsSpecSeek (specAfter s.flatten es) rng (s'.seek rng) := by
+  have := seek_spec s' (run_WF r h) rng hp
+  rw [hd] at this
+  rw [← persist_invisible r h]; exact this
 
 end NeoModel.Store.C09
